@@ -1092,6 +1092,40 @@ func (in *Interp) inPlaceNumberTarget(v *MCall, sc *scope, fr *frame) (func() Va
 	return nil, nil, false
 }
 
+// formatFault - a template made of plain text, {} and {#...} placeholders only: do the number of
+// placeholders and arguments differ, or does a numeric directive meet a non-number?
+// (templates with stray braces are left to C14: not decided here)
+func formatFault(tpl string, args []Value) bool {
+	n := 0
+	rs := []rune(tpl)
+	for i := 0; i < len(rs); i++ {
+		switch rs[i] {
+		case '}':
+			return false
+		case '{':
+			j := i + 1
+			for j < len(rs) && rs[j] != '}' && rs[j] != '{' {
+				j++
+			}
+			if j >= len(rs) || rs[j] != '}' {
+				return false
+			}
+			body := string(rs[i+1 : j])
+			if body != "" && body[0] != '#' {
+				return false
+			}
+			if body != "" && n < len(args) {
+				if _, isNum := args[n].(float64); !isNum {
+					return true
+				}
+			}
+			n++
+			i = j
+		}
+	}
+	return n != len(args)
+}
+
 // purePath - variables, literals and index / member chains over them (no calls)
 func purePath(e Expr) bool {
 	switch x := e.(type) {
@@ -1206,7 +1240,12 @@ func (in *Interp) evalBin(b *Bin, sc *scope, fr *frame) (Value, *ctl) {
 		if !ok1 || !ok2 {
 			if b.Op == "%" {
 				if _, isStr := l.(string); isStr {
-					if _, isList := r.(*ListV); isList {
+					if lst, isList := r.(*ListV); isList {
+						// the faults the manual documents for formatting are ordinary exceptions
+						// (the rendered text itself is the subject of C14, not modelled here)
+						if formatFault(l.(string), lst.Items) {
+							return nil, rterr("format")
+						}
 						in.unspec("text % list formatting (C14)")
 						return "", nil
 					}
